@@ -17,7 +17,9 @@ TECHNIQUE = (
 EXPLANATION = (
     "Decides: (FX-FRESH/FX-SELF) QlassF.to_logicfun returns a deep copy and does not touch the callee; (FX-FLOW) every "
     "QlassF that reaches translate_ast as a definition has passed through to_logicfun(); (FX-PARAM) Env.bind_function "
-    "does not modify the LogicFun it is given; (RW-SUBST) alpha-renaming, inlining and call-site binding are "
+    "does not modify the LogicFun it is given; (MP-latest-def) a second definition of a name replaces the first or is "
+    "rejected, never silently dropped; (MP-ret-order) to_logicfun hands the callee's expressions over in definition "
+    "order (no ordering of names as text); (RW-SUBST) alpha-renaming, inlining and call-site binding are "
     "simultaneous substitutions (xreplace, or subs with the keyword spelt as sympy spells it) and no subs() call "
     "passes a keyword sympy would silently ignore; (RW-KEYS) the formal->actual map is keyed by the callee's formal "
     "bits only, never by names taken from the caller's actual argument; (MP-arity-check) the argument-count check "
